@@ -63,6 +63,7 @@ func init() {
 		mutation{"aof-enqueue-without-barrier", "kv/aof/mutation.go", "	d.writeBarrier.RLock()\n	defer d.writeBarrier.RUnlock()\n	if d.closed.Load() {", "	if d.closed.Load() {", "aof-barrier"},
 	)
 	addSelfTests("C19",
+		mutation{"renew-clock-before-tx", "kv/sqlite3/lease.go", "	var next uint64\n	err := withWriteTx(ctx, s.writer, func(tx *sql.Tx) error {\n		now := time.Now()\n		next = uint64(time.Now().Add(ttl).UnixNano())\n", "	now := time.Now()\n	next := uint64(now.Add(ttl).UnixNano())\n	err := withWriteTx(ctx, s.writer, func(tx *sql.Tx) error {\n", "sql-lease"},
 		mutation{"lease-only-keys-not-transferred", "kv/memory/kv.go", "	deleted := (plain == nil) && (children == 0) && (token == 0)", "	deleted := (plain == nil) && (children == 0)\n	_ = token", "lease-transfer"},
 		mutation{"guard-accepts-subsecond", "kv/memory/lease.go", "	if td < time.Second {\n		return 0, false\n	}", "	if td < 0 {\n		return 0, false\n	}", "ttl-guard"},
 		mutation{"acquire-no-expiry-check", "kv/memory/lease.go", "	if curr > uint64(ref.UnixNano()) {\n		return 0, chord.ErrKVLeaseConflict\n	}\n", "", "memory-lease"},
@@ -1218,6 +1219,42 @@ func runC19(c *Ctx) {
 			default:
 				classes = append(classes, "?"+pv)
 			}
+		}
+		// the clock the expiry test is judged against is read inside the write
+		// transaction: the writer pool has one connection, so a call may queue behind a
+		// long transaction, and a `now` taken before it started lets a renewal (or an
+		// acquisition) be decided against the time it was issued, not the time it runs
+		for i, a := range exec.Args {
+			if i >= len(classes) || classes[i] != "now" {
+				continue
+			}
+			var nowCall *ast.CallExpr
+			var find func(e ast.Expr, depth int)
+			find = func(e ast.Expr, depth int) {
+				if depth > 6 || nowCall != nil {
+					return
+				}
+				ast.Inspect(e, func(n ast.Node) bool {
+					switch x := n.(type) {
+					case *ast.CallExpr:
+						if g.IsCall(x, "time.Now") {
+							nowCall = x
+						}
+					case *ast.Ident:
+						if v := g.varOf(x); v != nil {
+							for _, d := range g.defsOf(v) {
+								if d.rhs != nil {
+									find(d.rhs, depth+1)
+								}
+							}
+						}
+					}
+					return nowCall == nil
+				})
+			}
+			find(a, 0)
+			inTx := nowCall != nil && g.Lit != nil && nowCall.Pos() >= g.Lit.Pos() && nowCall.End() <= g.Lit.End()
+			c.Ob("sql-lease", "sqlite."+q.method+"#clock-read-inside-the-write-transaction", exec.Pos(), inTx, "the `now` bound into the "+q.field+" statement comes from a time.Now() evaluated inside the write-transaction closure that executes the statement")
 		}
 		c.Ob("sql-lease", "sqlite."+q.method+"#bound-arguments", exec.Pos(), strings.Join(classes, ",") == strings.Join(q.args, ","), fmt.Sprintf("arguments bound in the order the query expects %v; found %v", q.args, classes))
 		if strings.Join(classes, ",") != strings.Join(q.args, ",") {
